@@ -301,7 +301,10 @@ def _store_array(
     else:
         # treat a region as an offset within the target store
         shape = target.shape
-        chunks = target.chunks
+        # the stored objects of a sharded target are its shards, so each task must write whole shards
+        chunks = (
+            target.shards if getattr(target, "shards", None) is not None else target.chunks
+        )
         # normalise the region to one slice with explicit non-negative bounds per dimension
         if len(region) > len(shape) or not all(isinstance(sl, slice) for sl in region):
             raise ValueError(
